@@ -58,22 +58,28 @@ Section IO.
   Fixpoint has_path_key (d : list (pyval * pyval)) : bool :=
     match d with [] => false | (VStr k, _) :: r => str_contains "path" k || has_path_key r | _ :: r => has_path_key r end.
 
-  (* _arg_to_json_like on a literal *)
-  Fixpoint val_to_json (cast_types : bool) (v : pyval) : res pyval :=
+  (* _arg_to_json_like on a literal: mappings are escaped at exactly the places from_spec inspects
+     (the argument itself, items of a list argument, values of a mapping argument) *)
+  Definition escape_map (d : list (pyval * pyval)) : pyval :=
+    if has_path_key d then
+      VDict (map (fun kv => match fst kv with VStr k => (VStr (str_replace "path" "\path" k), snd kv) | _ => kv end) d)
+    else VDict d.
+
+  Definition item_to_json (cast_types : bool) (v : pyval) : res pyval :=
     match v with
     | VType t => if cast_types then Ok (match assoc_ty t (sx_inv_dtype X) with Some n => VStr n | None => v end) else Ok v
-    | VList l | VTuple l =>
-        let* l' := (fix go (l : list pyval) : res (list pyval) := match l with
-                      | [] => Ok [] | x :: r => let* x' := val_to_json cast_types x in let* r' := go r in Ok (x' :: r') end) l in
-        Ok (VList l')
-    | VDict d =>
-        let* d' := (fix go (d : list (pyval * pyval)) : res (list (pyval * pyval)) := match d with
-                      | [] => Ok [] | (k, x) :: r => let* x' := val_to_json cast_types x in let* r' := go r in Ok ((k, x') :: r') end) d in
-        if has_path_key d' then
-          Ok (VDict (map (fun kv => match fst kv with VStr k => (VStr (str_replace "path" "\path" k), snd kv) | _ => kv end) d'))
-        else Ok (VDict d')
+    | VDict d => Ok (escape_map d)
     | VObj _ => Err OtherExc          (* an object inside a literal: not modelled *)
     | _ => Ok v
+    end.
+
+  Definition val_to_json (cast_types : bool) (v : pyval) : res pyval :=
+    match v with
+    | VList l | VTuple l => let* l' := mapM (item_to_json cast_types) l in Ok (VList l')
+    | VDict d =>
+        if has_path_key d then Ok (escape_map d)
+        else let* d' := mapM (fun kv => let* x := item_to_json cast_types (snd kv) in Ok (fst kv, x)) d in Ok (VDict d')
+    | _ => item_to_json cast_types v
     end.
 
   Section CondIO.
